@@ -656,6 +656,9 @@ class ThreadsSim(Simulator):
                         yield with_(clients=nc)
 
     # ----------------------------------------------------------------------- reporting
+    def secondary_backends(self, prop, tier):
+        return [] if tier == "quick" else [("stub", None, 150)]
+
     def quick_runs(self, prop):
         return int(os.environ.get("VERIF_C13_RUNS", "720"))
 
